@@ -62,6 +62,16 @@ def inbound_clauses(pre, post, m, sender, target):
     only_logout = all((not f.opaque) and f.type == "5" for f in new)
     cl.append(("prelogon.no_reply_but_logout", Implies(prelogon, only_logout)))
     cl.append(("prelogon.first_non_logon_drops", Implies(And(Eq(pre.st, NET), Not(Eq(m.type, "A"))), disconnected)))
+    # ... "or acted upon": a first message other than Logon only drops the connection - no session callback
+    # (on_logout / on_logon / on_message) reaches the application; while our own Logon is unanswered only a Logon or a
+    # Logout (the peer refusing the session) is processed.  (The role / the states passed through on the way down are
+    # not part of the statement: a Logout stating the reason, sent from NETWORK_CONN_ESTABLISHED, goes through
+    # send_msg's first-send bookkeeping.)
+    acted = [x for x in ev if x in ("on_logout", "on_logon", "on_message")]
+    cl.append(("prelogon.first_non_logon_not_acted_upon",
+               Implies(And(Eq(pre.st, NET), Not(Eq(m.type, "A"))), len(acted) == 0)))
+    cl.append(("prelogon.reply_other_than_logon_logout_not_acted_upon",
+               Implies(And(Eq(pre.st, SENT), Not(Eq(m.type, "A")), Not(Eq(m.type, "5"))), len(acted) == 0)))
     # -- integrity defects
     cl.append(("integrity.no_delivery", Implies(defect, len(dl) == 0)))
     cl.append(("integrity.counter_kept", Implies(defect, Eq(post.nin, e))))
@@ -347,9 +357,7 @@ def witness_case(task, cover):
 
 def witness_agrees(task, cover, engine, obs):
     eo = dict(cover["inputs"].get("__observed__", {}))
-    if any(w.get("opaque") for w in eo.get("W", [])):
-        for k in ("W", "EV", "st", "was_active", "nout", "J_out"):
-            eo.pop(k, None)
+    sc.drop_resend_predictions(eo)
     bad = sc.conn_agrees(eo, obs)
     if bad:
         obs["mismatch"] = bad
@@ -392,15 +400,20 @@ FUNCS = [CONN + "." + f for f in ("_process_message", "_validate_integrity", "_p
     "asyncfix.session.FIXSession.validate_comp_ids"]
 
 TASKS = [
-    Task("inbound", inbound_harness, ic.pm_cfg(), FUNCS, native="conn", timeout_ms=20000),
-    Task("inert", inert_harness, ic.pm_cfg(), [CONN + "._process_message"], native="conn"),
-    Task("inbound[transport_fault]", inbound_fault_harness, ic.pm_cfg(), FUNCS, native="conn", timeout_ms=20000),
+    Task("inbound", inbound_harness, ic.pm_cfg(ic.RESEND_NEEDS["C11"]), FUNCS, native="conn", timeout_ms=20000),
+    Task("inert", inert_harness, ic.pm_cfg(ic.RESEND_NEEDS["C11"]), [CONN + "._process_message"], native="conn"),
+    Task("inbound[transport_fault]", inbound_fault_harness, ic.pm_cfg(ic.RESEND_NEEDS["C11"]), FUNCS, native="conn", timeout_ms=20000),
     Task("send", send_harness, sc.session_cfg(), [CONN + ".send_msg"], native="conn"),
     Task("send[disconnected_while_draining]", send_rely_harness, sc.session_cfg(), [CONN + ".send_msg", CONN + ".disconnect"],
          native="conn"),
     Task("disconnect", disconnect_harness, sc.session_cfg(), [CONN + ".disconnect"], native="conn"),
-    Task("mustfail", inbound_mustfail, ic.pm_cfg(), [], expect_refuted=True),
+    Task("mustfail", inbound_mustfail, ic.pm_cfg(ic.RESEND_NEEDS["C11"]), [], expect_refuted=True),
 ]
+import C06_resend as _c06  # noqa: E402
+# the callee contract of _process_resend used by the inbound tasks is a proved over-approximation of the real body
+TASKS.insert(len(TASKS) - 1, _c06.refinement_task(ic.RESEND_NEEDS["C11"], ic.RESEND_INV["C11"]))
+# ("consumes no sequence number" is decided on send_msg itself: a refused send returns before Codec.encode is reached;
+#  encode's number choice and the journal writes stay callee contracts proved under C05 / C13)
 
 PROPERTY = Property(
     "C11", TASKS,
